@@ -13,11 +13,14 @@
 //	    panics) must agree and owner cells outside the view must not change.
 //	views vectors <cases.ndjson> <results.ndjson>
 //	    cases of spec/VectorView.tla (vector slices and AsMatrix).
+//	views record <trace.ndjson> <ntraces> <maxdim> <maxops>
+//	    seeded random histories (owners up to maxdim x maxdim-1, Slice / T / writes
+//	    through the view) recorded from the real code, validated by spec/MatrixViewTrace.tla.
 //	views surface <out.json>
 //	    public methods of the matrix interfaces bound / not bound to an operation.
 //
 // Environment: VERIF_SEED, VERIF_TYPES (comma list), VERIF_ONLY_OP, VERIF_ONLY_STORAGE,
-// VERIF_ONLY_PAT, VERIF_WORKERS, VERIF_EXPORT_EVERY.
+// VERIF_ONLY_PAT, VERIF_WORKERS, VERIF_EXPORT_EVERY, VERIF_MINOR_EVERY.
 package main
 
 import (
@@ -98,7 +101,7 @@ type inst struct {
 }
 
 func (in inst) String() string { return in.Storage + "/" + in.TName + "/" + in.Pat }
-func (in inst) magic() bool     { return in.TName == "Real32" || in.TName == "Real64" }
+func (in inst) magic() bool    { return in.TName == "Real32" || in.TName == "Real64" }
 func (in inst) float() bool {
 	return in.magic() || in.TName == "Float32" || in.TName == "Float64"
 }
@@ -271,7 +274,12 @@ func replay(args []string) {
 	exportEvery := vh.EnvInt("VERIF_EXPORT_EVERY", 1)
 	seed := vh.EnvInt("VERIF_SEED", 1)
 
-	lines := make(chan []byte, 256)
+	minorEvery := vh.EnvInt("VERIF_MINOR_EVERY", 1)
+	type job struct {
+		idx  int
+		line []byte
+	}
+	lines := make(chan job, 256)
 	var wg sync.WaitGroup
 	var mu sync.Mutex
 	stats := map[string]int{}
@@ -286,7 +294,8 @@ func replay(args []string) {
 			tmp := filepath.Join(scratch, fmt.Sprintf("w%d", wk))
 			os.MkdirAll(tmp, 0o755)
 			nth := 0
-			for line := range lines {
+			for jb := range lines {
+				line := jb.line
 				var c tcase
 				if e := json.Unmarshal(line, &c); e != nil {
 					vh.Fatal("bad case:", e, string(line[:100]))
@@ -302,6 +311,9 @@ func replay(args []string) {
 					local["cases_owner"]++
 				}
 				for _, ti := range types {
+					if ti >= 4 && minorEvery > 1 && (jb.idx+seed)%minorEvery != 0 {
+						continue // the five remaining element types run on every n-th case only
+					}
 					for _, storage := range []string{"dense", "sparse"} {
 						if onlyStorage != "" && onlyStorage != storage {
 							continue
@@ -332,9 +344,11 @@ func replay(args []string) {
 			mu.Unlock()
 		}(wk)
 	}
+	idx := 0
 	err := vh.EachLine(args[0], func(line []byte) error {
 		cp := append([]byte{}, line...)
-		lines <- cp
+		lines <- job{idx, cp}
+		idx++
 		return nil
 	})
 	close(lines)
@@ -351,7 +365,7 @@ func replay(args []string) {
 
 func surface(args []string) {
 	bound := map[string]bool{}
-	for _, o := range allOps() {
+	for _, o := range opsTable {
 		for _, m := range o.methods {
 			bound[m] = true
 		}
@@ -390,6 +404,8 @@ func main() {
 		vectors(os.Args[2:])
 	case "surface":
 		surface(os.Args[2:])
+	case "record":
+		record(os.Args[2:])
 	default:
 		vh.Fatal("unknown sub-command", os.Args[1])
 	}
